@@ -132,6 +132,7 @@ type txInst struct {
 	RTO         time.Duration
 	StartTime   time.Time
 	StartPos    int  // log position when the call was issued
+	Thr         int  // scheduler thread that issued the call
 	Started     bool // call issued
 	Returned    bool
 	RetErr      error
@@ -461,6 +462,7 @@ func (w *cliWorld) do(ev cliEv, quiesce bool) {
 		inst.RTO = w.rtoNow
 		inst.StartTime = w.clock.now
 		inst.Started = true
+		inst.Thr = sched.CurrentID()
 		sched.Point("invoke", nil)
 		err := c.Start(m, w.handlerFor(inst, idx))
 		inst.Returned, inst.RetErr = true, err
@@ -474,6 +476,7 @@ func (w *cliWorld) do(ev cliEv, quiesce bool) {
 		inst.Started = true
 		h := w.handlerFor(inst, idx)
 		body := func() {
+			inst.Thr = sched.CurrentID()
 			sched.Point("invoke", nil)
 			err := c.Do(m, func(e stun.Event) { h(e) })
 			inst.Returned, inst.RetErr = true, err
